@@ -4,6 +4,7 @@ open Glue
 open Ttglue
 
 let sj (l : string list) = Stdlib.String.concat ";" l
+let sj_comma (l : string list) = Stdlib.String.concat "," l
 let si (n : Datatypes.nat) = string_of_int (int_of_nat n)
 
 let op_str (o : TextTok.operator option) =
@@ -107,9 +108,42 @@ let json_ser (utf8 : bool) (t : TextTok.ttok list) idx entry pretty dup narrow :
 
 let guard f = try f () with Crash -> crash_tag
 
+(* >>> w_json (wave 5): the document walk JsonDoc.doc_eatoms (from the tape alone) in the format of
+   the harness' atoms_of_canonical, and the array of a node through the declarative window reading *)
+let narrowing_of narrow = match narrow with "a" -> Json.NarrowAll | "u" -> Json.NarrowUnquoted | _ -> Json.NarrowNone
+let dup_of dup = match dup with "g" -> Json.Group | "p" -> Json.Preserve | _ -> Json.KeyValuePairs
+
+let json_atoms (utf8 : bool) (t : TextTok.ttok list) dup narrow : string =
+  let dec = Json.decode_of utf8 in
+  let l = JsonDoc.doc_eatoms dec (narrowing_of narrow) (dup = "k") t in
+  sj_comma (Stdlib.List.map (fun a ->
+      match a with
+      | JsonDoc.EK k -> "K" ^ hex_of_bytes k
+      | JsonDoc.EV j -> let b = Stdlib.Buffer.create 32 in show_json b j; "V" ^ Stdlib.Buffer.contents b) l)
+
+let json_aspec (utf8 : bool) (t : TextTok.ttok list) idx entry pretty dup narrow : string =
+  let dec = Json.decode_of utf8 in
+  let o = { Json.pretty = (pretty = "1"); Json.duplicate_keys = dup_of dup; Json.type_narrowing = narrowing_of narrow } in
+  let v = nat_of_int (int_of_string idx) in
+  if entry <> "a" then "BADCASE"
+  else match api (Dom.read_array t v) with
+    | None -> "E"
+    | Some r ->
+      let l = ok (Dom.values_all t r) in
+      let recf = Json.ser_value dec !dbg o t (Json.ser_fuel t) in
+      let js = Stdlib.List.map (fun e -> ok (JsonDoc.elem_tree dec t recf e)) (JsonDoc.win_read t l) in
+      let arr = Json.JArr js in
+      let j = (match dup with "k" -> Json.JObj [(Json.s_type, Json.JStr Json.s_array); (Json.s_val, arr)] | _ -> arr) in
+      let b = Stdlib.Buffer.create 256 in show_json b j; Stdlib.Buffer.contents b
+(* <<< *)
+
 let () =
   register "dom.wf" (function [_; tape] -> string_of_int (int_of_nat (TapeWf.tape_wf_code (tape_of_string tape))) | _ -> "BADCASE");
   register "dom.node" (function [_; tape; enc; idx] -> guard (fun () -> node_view (enc = "u") (tape_of_string tape) idx) | _ -> "BADCASE");
   register "json.ser" (function [_; tape; enc; idx; entry; pretty; dup; narrow] ->
       guard (fun () -> json_ser (enc = "u") (tape_of_string tape) idx entry pretty dup narrow) | _ -> "BADCASE");
+  register "json.atoms" (function [_; tape; enc; dup; narrow] ->
+      guard (fun () -> json_atoms (enc = "u") (tape_of_string tape) dup narrow) | _ -> "BADCASE");
+  register "json.aspec" (function [_; tape; enc; idx; entry; pretty; dup; narrow] ->
+      guard (fun () -> json_aspec (enc = "u") (tape_of_string tape) idx entry pretty dup narrow) | _ -> "BADCASE");
   register "json.f64" (function [h] -> show_outcome (fun bits -> Z.format "%016x" (zt_of_n bits)) (Json.to_f64 (bytes_of_hex h)) | _ -> "BADCASE")
